@@ -169,7 +169,24 @@ func checkC11(c *Ctx) {
 				pad := "sub(0x10,rem(len(src),0x10))"
 				want := "concat(make(0x0),src,call:bytes.Repeat(lit(trunc8(" + pad + "))," + pad + "))"
 				want2 := "concat(src,call:bytes.Repeat(lit(trunc8(" + pad + "))," + pad + "))"
-				c.Check(got == want || got == want2, "K-C11-pad", fname(p), "src || pad^pad with pad = 16 - len%16", "", "padding builds "+got, ret.Pos())
+				if got == want || got == want2 {
+					c.Holds("K-C11-pad", fname(p), "src || pad^pad with pad = 16 - len%16", "", ret.Pos())
+				} else if strings.HasPrefix(got, "concat(") {
+					// the recognised construction with another content: a different pad
+					c.Violated("K-C11-pad", fname(p), "src || pad^pad with pad = 16 - len%16", "padding builds "+got, ret.Pos())
+				} else {
+					// another construction (explicit buffer and fill loop, ...): what can still be decided is the LENGTH
+					// of the result — between 1 and 16 bytes more than the input — by the linear prover; the pad
+					// bytes themselves are then undecided, not violated
+					lb := &LB{p: c.P, f: p, UsedContracts: map[string]bool{}}
+					out, in := lb.lenLin(ret.Results[0]), lb.lenLin(p.Params[0])
+					okLen := lb.prove([]cons{ge(out, in.addScaled(linConst(1), 1)), le(out, in.addScaled(linConst(16), 1))}, b, nil, map[lvar]lin{}, 2)
+					if okLen {
+						c.Undecided("K-C11-pad", fname(p), "src || pad^pad with pad = 16 - len%16", "the padding is built in a form the rule does not recognise ("+got+"); proved only that it adds between 1 and 16 bytes", ret.Pos())
+					} else {
+						c.Violated("K-C11-pad", fname(p), "src || pad^pad with pad = 16 - len%16", "padding builds "+got+", and it is not provable that it adds between 1 and 16 bytes", ret.Pos())
+					}
+				}
 			}
 		}
 	} else {
